@@ -3,6 +3,7 @@ import os
 from lib import Case, hx, doc_case, unhx
 import xmlcanon, xmlgen, docgen
 
+DOC_MODEL = True     # every generated document also runs through the composed Coq model of the whole transform
 RULE = ('generated svgdx documents whose attribute values, text attributes, element content, CDATA, comments (_ / __), '
         'variables, expressions and configuration strings (background, font family, svg style) draw from an alphabet rich in '
         '& < > " \' ]]> -- and multi-byte characters, each under 2 random configurations (debug, metadata, themes, local styles); '
